@@ -1748,6 +1748,13 @@ func scopeMerge() *scopeCfg {
 		foreign: []foreignDef{fAddLearner(0, 5), fAddLearner(1, 5)}}
 }
 
+// scopeMergeTimeout: the merge pair alone, long enough for: admitted, executed by the
+// store, timed out (noticed by a scheduler round), source region gone, pushed.
+func scopeMergeTimeout() *scopeCfg {
+	return &scopeCfg{name: "merge-timeout", mode: modeJoint, regions: 2, maxBuilt: 2, adds: true, hand: false, times: []time.Duration{min11},
+		tmpls: []tmpl{tMerge("merge(11->12)", 0, 1)}}
+}
+
 func scopeRuns(name string, mode int, tmpls []tmpl, times []time.Duration) *scopeCfg {
 	nRun := len(tmpls)
 	if mode == modeJoint {
@@ -1781,6 +1788,7 @@ func main() {
 		Scopes: []*hist.Scope{
 			mk(scopeAPI, "quick", 5, ""),
 			mk(scopeMerge, "quick", 5, ""),
+			mk(scopeMergeTimeout, "quick", 8, ""),
 			mk(runsJ, "quick", 5, ""),
 			mk(runsO, "quick", 5, ""),
 			mk(runsP, "quick", 5, ""),
